@@ -409,8 +409,9 @@ def run(ctx: Ctx):
 
 
 META = {
-    "technique": "algebraic normal forms of transforms / parameter formulas; abstract interpretation of the region "
-                 "selection on symbolic arrays over all element orderings",
+    "technique": "algebraic normal forms of transforms / parameter formulas; abstract interpretation of the region selection on "
+                 "symbolic arrays over all element orderings and of the t / alpha-s manual limits on concrete curves; wrapper pr"
+                 "otocol (reference area)",
     "level_text": "Static: [ALG] the BET, Langmuir and DA transforms of their own governing equations are shown affine and the "
                   "parameter formulas are shown to return the generating quantities for ALL parameter values, including the "
                   "area/volume unit factors; the region selection of the three *_raw routines is abstractly interpreted on "
